@@ -111,7 +111,7 @@ def expectations(typ, mo, only=None):
     return E
 
 
-def judge(prop, typ, xs, kv, res, case, variant='release', only=None, mo=None, context='', memo=None, memo_key=None):
+def judge(prop, typ, xs, kv, res, case, variant='release', only=None, mo=None, context='', memo=None, memo_key=None, add_only=False):
     """Check one observation record of a moment-family estimator fed the multiset xs.
     Returns True when the state was non-trivial (n >= 2, sigma > 0, envelope <= 1e-3,
     inside the guard)."""
@@ -129,8 +129,23 @@ def judge(prop, typ, xs, kv, res, case, variant='release', only=None, mo=None, c
     if mo is None:
         mo = ex.moments(xs, P)
     if mo.sigma == 0:
-        # constant data: decided exactly by C16; here only the mean's range
+        # constant data (incl. a single observation).  Envelopes do not apply (kappa is infinite); for add-only histories the
+        # documented contract (C16) is exact: mean == x, population variance / variance of mean / error / skewness / kurtosis == 0,
+        # sample variance NaN below two observations.  Merged constant data are left to C16 / C11.
         res.count('skipped_zero_spread')
+        if add_only and xs is not None:
+            x = xs[0]
+            want = {'mean': x, 'population_variance': 0.0, 'variance_of_mean': 0.0, 'error': 0.0, 'error_mean': 0.0,
+                    'skewness': 0.0, 'kurtosis': 0.0, 'cm2': 0.0, 'sample_variance': (0.0 if n >= 2 else None)}
+            for name, w in want.items():
+                if name not in kv or (only is not None and name not in only):
+                    continue
+                got = val(kv[name])
+                res.count('constant_state_checks')
+                ok = (isinstance(got, float) and got != got) if w is None else (got == w)
+                if not ok:
+                    res.violation(prop, '%s.%s:constant' % (bt, name), '%s.%s() = %s after %d identical observations %r (expected %s) %s' % (
+                        typ, name, show(kv[name]), n, x, 'NaN' if w is None else repr(w), context), case, variant)
         return False
     if mo.kappa > KAPPA_MAX:
         # outside the quantifier's domain (kappa <= 1e12); C17 covers unrestricted conditioning
